@@ -116,7 +116,7 @@ class C04(HistProp):
     names = ["INBOX", "other"]
     skeletons = [sk_all_single_message_flag_sets, sk_store_semantics, sk_collision_keywords, sk_store_over_mixed_recent]
     weights = {"store": 16, "uid_store": 10, "store_del": 3, "fetch": 6, "fetch_body": 6, "uid_fetch": 4, "append": 8, "copy": 5, "uid_copy": 2, "move": 2, "noop": 10,
-               "search_flag": 8, "deliver": 3, "expunge": 2, "idle": 2, "examine": 2}
+               "search_flag": 8, "deliver": 3, "expunge": 2, "idle": 2, "examine": 2, "deliver_stalled": 2}
     opts = {"flag_pool": ORDINARY, "examine_prob": 0.1}
     observer_cadence = [1, 2, 0]
     initial = (1, 6)
